@@ -644,7 +644,13 @@ impl Case {
                     other => format!("lterm!({})", other.print()),
                 })
                 .collect();
-            s.push_str(&format!("    let coll{}: Vec<LT> = vec![{}];\n", i, els.join(", ")));
+            // the collection is a Rust Vec or — for collections of odd length — a proto-vulcan LIST TERM iterated through
+            // `IntoIterator for &LTerm` (as in examples/sudoku.rs; its iterator has no exact size hint: seeded change C12-d)
+            if c.len() % 2 == 1 {
+                s.push_str(&format!("    let coll{}: LT = LT::from_vec(vec![{}]);\n", i, els.join(", ")));
+            } else {
+                s.push_str(&format!("    let coll{}: Vec<LT> = vec![{}];\n", i, els.join(", ")));
+            }
         }
         // a top-level conjunction (an operator alone yields a plain `Goal`, a conjunction an `InferredGoal`)
         let body = match &self.body {
@@ -720,6 +726,26 @@ impl SurfGen {
     /// a goal over the variables in scope; `kinds` selects which constructs may appear
     pub fn goal(&self, r: &mut Rng, scope: &mut Vec<String>, depth: usize, kinds: &Kinds) -> SG {
         let atom = |r: &mut Rng, scope: &Vec<String>| -> SG {
+            // `[a | t] != [b, c, d]` — list terms of different written length, one with an open tail — together with the
+            // `==` that makes them coincide: `!=` must translate to the disequality GOAL, whatever the shape of its operands
+            // (seeded change C14-d: a construction-time shortcut on the written lengths)
+            if r.chance(1, 12) {
+                // the tail is a LOCAL fresh variable (existential for the brute-force oracle, which ranges over the query
+                // variables only), bound to the rest of the longer list: the conjunction has no solution
+                let t = ST::Var("tz".to_string());
+                let n = 1 + r.below(2);
+                let heads: Vec<ST> = (0..n).map(|_| ST::Num(r.range(1, 3) as isize)).collect();
+                let m = n + 1 + r.below(2);
+                let mut other: Vec<ST> = heads.clone();
+                while other.len() < m {
+                    other.push(ST::Num(r.range(1, 3) as isize));
+                }
+                let (a, b) = (ST::Improper(heads, Box::new(t.clone())), ST::List(other.clone()));
+                let ne = if r.chance(1, 2) { SG::Neq(a, b) } else { SG::Neq(b, a) };
+                let bind = SG::Eq(t, ST::List(other[n..].to_vec()));
+                let gs = if r.chance(1, 2) { vec![ne, bind] } else { vec![bind, ne] };
+                return SG::Fresh(vec!["tz".to_string()], gs);
+            }
             // mostly `variable == small term` (satisfiable), sometimes two arbitrary terms
             let a = if r.chance(5, 6) && !scope.is_empty() { ST::Var(r.pick(scope).clone()) } else { self.term(r, scope, 2, false) };
             let b = if r.chance(3, 4) { self.term(r, scope, 1, false) } else { self.term(r, scope, 2, false) };
